@@ -2,6 +2,7 @@
 From Coq Require Import List Ascii Arith Lia Bool.
 Import ListNotations.
 From SP Require Import Comb Splitter Components.
+From SP Require Import Skel Gen ExpectedCones.
 Notation length := List.length.
 
 (* combinators: for every number of ports, every stream lengths (0 included), every element type: out-stream j is column j
@@ -59,6 +60,22 @@ Proof. intros c r. split; [reflexivity|]. unfold concat_out. simpl. now rewrite 
 Theorem C19_concat : forall a b : list (list nat), concat_out (a ++ b) = concat_out a ++ concat_out b.
 Proof. exact Components.concat_out_app. Qed.
 
+(* T1, call cones: every function of scipipe that the functions this property's models stand for can reach (calls and
+   function values, interface calls resolved to every implementation) is one the models were compared with -- a helper that
+   is new to the cone, or a new call of an old one, changes a list (regenerated from /repo on every run; ExpectedCones.v
+   holds the accepted ones) *)
+Theorem C19_cone_conforms :
+  strs_eqb cone_components_FileCombinator_Run exp_cone_components_FileCombinator_Run
+  && strs_eqb cone_components_ParamCombinator_Run exp_cone_components_ParamCombinator_Run
+  && strs_eqb cone_components_IPSelectorSync_Run exp_cone_components_IPSelectorSync_Run
+  && strs_eqb cone_components_Concatenator_Run exp_cone_components_Concatenator_Run
+  && strs_eqb cone_components_FileSplitter_Run exp_cone_components_FileSplitter_Run
+  && strs_eqb cone_components_FileSource_Run exp_cone_components_FileSource_Run
+  && strs_eqb cone_components_ParamSource_Run exp_cone_components_ParamSource_Run
+  && strs_eqb cone_components_StreamToSubStream_Run exp_cone_components_StreamToSubStream_Run
+  && strs_eqb cone_components_MapToTags_Run exp_cone_components_MapToTags_Run = true.
+Proof. vm_compute. reflexivity. Qed.
+
 Print Assumptions C19_product.
 Print Assumptions C19_product_lengths.
 Print Assumptions C19_product_is_cartesian.
@@ -71,3 +88,4 @@ Print Assumptions C19_split_bytes.
 Print Assumptions C19_split_bound.
 Print Assumptions C19_split_example.
 Print Assumptions C19_concat.
+Print Assumptions C19_cone_conforms.
